@@ -156,6 +156,31 @@ func genPkt4(r *Rng, inDomain bool) *dhcpv4.DHCPv4 {
 			delete(p.Options, 52)
 		}
 	}
+	if r.Chance(1, 12) {
+		// packet shapes the RFCs define for particular links and clients: DHCP over
+		// InfiniBand (RFC 4390: htype 32, hlen 0, chaddr zeroed, client identifier = 32 +
+		// 20-octet address, broadcast flag), node-specific client identifiers (RFC 4361:
+		// type 255 + IAID + DUID), Ethernet client identifiers (type 1 + MAC), FireWire
+		// (RFC 2855: htype 24, hlen 0... ) - code that special-cases one of these keys on
+		// several fields at once (seeded change C04-16)
+		switch r.Intn(4) {
+		case 0:
+			p.HWType, p.ClientHWAddr = iana.HWType(32), net.HardwareAddr{}
+			p.Options[61] = append([]byte{32}, r.Bytes(20)...)
+			p.Flags |= 0x8000
+		case 1:
+			p.HWType, p.ClientHWAddr = iana.HWType(32), net.HardwareAddr{}
+			p.Options[61] = append([]byte{byte(r.Pick([]int{32, 1, 0, 255}))}, r.Bytes(r.Pick([]int{20, 20, 19, 21, 6, 8}))...)
+		case 2:
+			p.Options[61] = append(append([]byte{255}, r.Bytes(4)...), append([]byte{0, byte(r.Range(1, 4))}, r.Bytes(r.Pick([]int{6, 10, 16}))...)...)
+		default:
+			p.HWType = iana.HWType(1)
+			if len(p.ClientHWAddr) != 6 {
+				p.ClientHWAddr = net.HardwareAddr(r.Bytes(6))
+			}
+			p.Options[61] = append([]byte{1}, p.ClientHWAddr...)
+		}
+	}
 	if inDomain && r.Chance(1, 12) {
 		sizePkt4(p, pkt4Sizes[r.Intn(len(pkt4Sizes))])
 	}
@@ -237,7 +262,7 @@ var pkt4Sizes = []int{300, 301, 302, 512, 548, 575, 576, 576, 576, 577, 1024, 14
 // valid packets, and malformed variants (truncation, length perturbation,
 // cookie flips, splices).
 func genWire4(r *Rng) ([]byte, string) {
-	switch r.Intn(13) {
+	switch r.Intn(14) {
 	case 12:
 		// shorter than header + cookie, with the magic cookie where a decoder that has
 		// lost step - a read that failed for lack of bytes does not advance, the next,
@@ -269,6 +294,25 @@ func genWire4(r *Rng) ([]byte, string) {
 			}
 		}
 		return b, "short-with-cookie"
+	case 13:
+		// one option code in very many instances (RFC 3396 sets no limit): counts around
+		// every power-of-two boundary an 8-bit or 9-bit counter could wrap at, values of 0..2
+		// octets so that the packet stays small (seeded change C04-15: instances counted
+		// in a uint8)
+		b := append(r.Bytes(236), 99, 130, 83, 99)
+		code := byte(r.Pick([]int{224, 43, 82, 12, r.Range(1, 254)}))
+		n := r.Pick([]int{127, 128, 129, 255, 256, 257, 257, 258, 511, 512, 513, 1025})
+		for i := 0; i < n; i++ {
+			l := r.Pick([]int{1, 1, 0, 2})
+			b = append(b, code, byte(l))
+			for k := 0; k < l; k++ {
+				b = append(b, byte(i+k))
+			}
+			if r.Chance(1, 40) {
+				b = append(b, 53, 1, byte(r.Range(1, 8)))
+			}
+		}
+		return append(b, 255), "many-instances"
 	case 11:
 		// RFC 2131 option overload (option 52 = 1, 2 or 3) with the file and/or sname
 		// field holding a well-formed option run: the library does NOT implement
